@@ -1,16 +1,34 @@
 (* Gateway/Sound_C07C08C09.v — the gateway model's own outputs are accepted by the per-step
    checkers of the connect exchange: C07 (admission), C08 (authentication), C09 (will protocol).
 
-   chk_C07_sound is proved as stated.  chk_C08_sound and chk_C09_sound are FALSE as stated (the
-   sleep buffer: see the counterexamples before chk_C08_sound_partial / chk_C09_sound_partial);
-   they are proved under the executable side conditions c08_excluded / c09_excluded = false. *)
+   chk_C07_sound is proved as stated.
+
+   chk_C08_sound and chk_C09_sound are FALSE as stated (theorems chk_C08_sound_false and
+   chk_C09_sound_false, from the concrete histories chk_C08_counterexample,
+   chk_C09_counterexample_willtopicreq and chk_C09_counterexample_willmsgreq).  The cause is the sleep
+   buffer: sn_send queues a packet while the client is Asleep, and a connect exchange can be in
+   progress while the client sleeps (a CONNECT received in state Active starts a new exchange, and a
+   DISCONNECT with a duration does not cancel it).
+   - C08, clause 3: the CONNACK "not supported" that answers an AUTH with an unknown method is queued
+     instead of written, so the step that handles that AUTH writes nothing.
+   - C09, clauses 1 and 2: a WILLTOPICREQ / WILLMSGREQ queued while asleep is written in the step that
+     handles the next PINGREQ, i.e. in a step whose event is neither CONNECT/AUTH nor WILLTOPIC.
+   They are proved under the executable side conditions c08_excluded / c09_excluded = false
+   (chk_C08_sound_partial, chk_C09_sound_partial).  The side conditions are exact: every step they
+   exclude is rejected by the checker (c08_excluded_rejected, c09_excluded_rejected).
+
+     (* FALSE: *) chk_C08_sound : forall cfg s ev, wf_cfg cfg -> reach cfg s -> wf_event ev ->
+                    chk_C08 cfg s ev (obs_of_outs (snd (gw_step cfg s ev))) = [].
+     (* FALSE: *) chk_C09_sound : forall cfg s ev, wf_cfg cfg -> reach cfg s -> wf_event ev ->
+                    chk_C09 cfg s ev (obs_of_outs (snd (gw_step cfg s ev))) = [].
+   Added hypotheses: c08_excluded cfg s ev = false, resp. c09_excluded cfg s ev = false. *)
 From stdpp Require Import base option list numbers fin_maps nmap.
 From Coq Require Import Lia ZArith ZifyN ZifyNat ZifyBool.
 From RecordUpdate Require Import RecordSet.
 From Verif.Base Require Import Bytes BytesProofs.
 From Verif.Codec Require Import Packets Decode Encode EncodeProofs.
 From Verif.Topics Require Import Predefined.
-From Verif.Gateway Require Import GwTypes GwStep GwStepProofs GwWf Sound_C07C08C09_aux.
+From Verif.Gateway Require Import GwTypes GwStep GwStepProofs GwWf GwRun Sound_C07C08C09_aux.
 From Verif.Checkers Require Import ChkCodec ChkGw ChkGw2.
 Import RecordSetNotations.
 Open Scope N_scope.
@@ -331,6 +349,18 @@ Qed.
 Lemma Inv_cx cfg s g mq a : Inv cfg s -> get_connect s = Some (g, mq, a) -> Cx cfg (gw_auth_seen s) mq a.
 Proof. intros [_ [_ [_ HC]]] Hg. apply get_connect_Some in Hg. destruct Hg as [Hc Hl]. eapply HC; eassumption. Qed.
 
+
+Lemma Cx_auth cfg u p mq : auth_enabled cfg = true ->
+  Cx cfg (Some (u, p)) (mq <| c_uflag := true |> <| c_user := u |> <| c_pflag := true |> <| c_pass := p |>)
+     (if c_will mq then CxWillTopic else CxConnack).
+Proof.
+  intros Hau. unfold Cx. cbn. split; [|split; [|split]].
+  - intros E. destruct (c_will mq); discriminate E.
+  - intros E. congruence.
+  - intros _ _. exists u, p. repeat split; reflexivity.
+  - intros [E|E]; destruct (c_will mq); try discriminate E; reflexivity.
+Qed.
+
 Lemma Inv_connect_auth cfg s g mq a method data :
   Inv cfg s -> get_connect s = Some (g, mq, a) -> Inv cfg (st_of (connect_auth s g mq a method data)).
 Proof.
@@ -343,8 +373,7 @@ Proof.
   apply Inv_connect_auth_done.
   - apply Inv_Inv3 in H. exact H.
   - cbn. apply get_connect_Some in Hg. apply Hg.
-  - cbn. unfold Cx. destruct (c_will mq) eqn:Hw; cbn; repeat split; intros; try congruence; try discriminate; eauto 10.
-    all: destruct H0; discriminate.
+  - exact (Cx_auth cfg u p mq Hau).
 Qed.
 
 Lemma Cx_update cfg seen mq a mq' a' :
@@ -377,6 +406,33 @@ Proof.
   - right. eapply nd_accepted; [exact H|congruence].
 Qed.
 
+#[local] Hint Extern 1 (IT _ _) => (left; assumption) : inv.
+
+Lemma P_andthen (P : gw_state -> Prop) r g :
+  P (st_of r) -> (forall s1, P s1 -> P (st_of (g s1))) -> P (st_of (andthen r g)).
+Proof.
+  intros Hr Hg. destruct r as [[s o] [|c]]; cbn [andthen st_of fst] in *; [|exact Hr].
+  specialize (Hg s Hr). destruct (g s) as [[s' o'] res]. exact Hg.
+Qed.
+
+Definition InvA (cfg : gw_cfg) (s : gw_state) : Prop := Inv cfg s /\ gw_accepted s = true.
+
+Lemma InvA_sn_send_owned cfg s o p : InvA cfg s -> InvA cfg (st_of (sn_send_owned s o p)).
+Proof.
+  intros [H A]. split; [apply Inv_sn_send_owned, H|]. unfold sn_send_owned.
+  destruct (gw_st s); try destruct (len (pack p) <=? MaxPacketLen); cbn; exact A.
+Qed.
+
+Lemma InvA_send_all cfg ps : forall s, InvA cfg s -> InvA cfg (st_of (send_all s ps)).
+Proof.
+  induction ps as [|[o p] ps IH]; intros s H; cbn [send_all]; [exact H|].
+  apply (P_andthen (InvA cfg)); [apply InvA_sn_send_owned, H|intros s1 H1; apply IH, H1].
+Qed.
+
+Lemma Inv_set_st cfg s st : Inv cfg s -> gw_accepted s = true -> Inv cfg (s <| gw_st := st |>).
+Proof.
+  intros H A. inv_split. unfold Inv. cbn. rewrite A in *. (split; [|split; [|split]]); eauto with inv.
+Qed.
 #[local] Hint Extern 1 (IT _ _) => (left; assumption) : inv.
 
 Lemma Inv_handle_sn cfg s p : Inv cfg s -> Inv cfg (st_of (handle_sn cfg s p)).
@@ -418,26 +474,22 @@ Proof.
     destruct (get_by_id s mid) as [[g t]|] eqn:Hg; [|exact H].
     pose proof (Inv_ok_by_id _ _ _ _ _ H Hg) as Hok.
     destruct t as [| | |m q st d sp n]; try exact H.
-    repeat (match goal with |- Inv _ (st_of (match ?x with _ => _ end)) => destruct x; try exact H end).
-    destruct (negb (bp_state_eqb st AwaitPuback)); [exact H|].
-    destruct (negb (rc =? RC_ACCEPTED)); [inv_walk|].
-    apply Inv_bp_proceed; [exact H|exact Hacc|apply Hok].
+    repeat (match goal with |- Inv _ (st_of (match ?x with _ => _ end)) => destruct x; try exact H end);
+      first [ apply Inv_bp_proceed; [exact H|exact Hacc|apply Hok] | inv_walk ].
   - (* Pubcomp *)
     destruct Hacc as [Hacc|Hacc]; [discriminate|].
     destruct (get_by_id s mid) as [[g t]|] eqn:Hg; [|exact H].
     pose proof (Inv_ok_by_id _ _ _ _ _ H Hg) as Hok.
     destruct t as [| | |m q st d sp n]; try exact H.
-    repeat (match goal with |- Inv _ (st_of (match ?x with _ => _ end)) => destruct x; try exact H end).
-    destruct (negb (bp_state_eqb st AwaitPubcomp)); [exact H|].
-    apply Inv_bp_proceed; [exact H|exact Hacc|apply Hok].
+    repeat (match goal with |- Inv _ (st_of (match ?x with _ => _ end)) => destruct x; try exact H end);
+      first [ apply Inv_bp_proceed; [exact H|exact Hacc|apply Hok] | inv_walk ].
   - (* Pubrec *)
     destruct Hacc as [Hacc|Hacc]; [discriminate|].
     destruct (get_by_id s mid) as [[g t]|] eqn:Hg; [|exact H].
     pose proof (Inv_ok_by_id _ _ _ _ _ H Hg) as Hok.
     destruct t as [| | |m q st d sp n]; try exact H.
-    repeat (match goal with |- Inv _ (st_of (match ?x with _ => _ end)) => destruct x; try exact H end).
-    destruct (negb (bp_state_eqb st AwaitPubrec)); [exact H|].
-    apply Inv_bp_proceed; [exact H|exact Hacc|apply Hok].
+    repeat (match goal with |- Inv _ (st_of (match ?x with _ => _ end)) => destruct x; try exact H end);
+      first [ apply Inv_bp_proceed; [exact H|exact Hacc|apply Hok] | inv_walk ].
   - (* Pubrel *) inv_walk.
   - (* Subscribe *) apply Inv_handle_subscribe, H.
   - (* Unsubscribe *) apply Inv_handle_unsubscribe, H.
@@ -445,20 +497,1232 @@ Proof.
     destruct (cstate_eqb (gw_st s) Asleep) eqn:Hst; [|exact H].
     assert (Hacc' : gw_accepted s = true).
     { eapply nd_accepted; [exact H|]. intros E. rewrite E in Hst. discriminate. }
-    cbv zeta. apply Inv_andthen.
-    + apply Inv_send_all. inv_split. unfold Inv. cbn. rewrite Hacc' in *. (split; [|split; [|split]]); eauto with inv.
-    + intros s1 H1. apply Inv_andthen.
-      * cbn [sn_send]. apply Inv_sn_send_owned. inv_leaf.
-      * intros s2 H2. cbn [st_of ok fst].
-        (* Asleep again: the state was accepted all along *)
-        admit.
+    cbv zeta. enough (HA : InvA cfg (st_of (andthen (send_all (s <| gw_st := Awake |>) (gw_buffer s))
+        (fun s0 => andthen (sn_send (s0 <| gw_buffer := [] |>) Pingresp) (fun s1 => ok (s1 <| gw_st := Asleep |>) [])))))
+      by (destruct HA as [HA _]; exact HA).
+    apply (P_andthen (InvA cfg)).
+    + apply InvA_send_all. split; [apply Inv_set_st; assumption|exact Hacc'].
+    + intros s1 [H1 A1]. apply (P_andthen (InvA cfg)).
+      * cbn [sn_send]. apply InvA_sn_send_owned. split; [inv_leaf|exact A1].
+      * intros s2 [H2 A2]. cbn [st_of ok fst]. split; [apply Inv_set_st; assumption|exact A2].
   - (* Disconnect *)
     destruct (dur =? 0) eqn:Hd.
     + inv_walk. inv_leaf.
     + destruct Hacc as [Hacc|Hacc]; [cbn in Hacc; congruence|].
-      cbv zeta. apply Inv_andthen.
-      * cbn [sn_send]. apply Inv_sn_send_owned.
-        destruct (negb (gw_keepalive s =? 0) && (gw_keepalive s <? dur)); inv_split; unfold Inv; cbn; rewrite Hacc in *;
-          (split; [|split; [|split]]); eauto with inv.
-      * intros s1 H1. cbn [st_of ok fst]. admit.
-Admitted.
+      cbv zeta.
+      match goal with |- Inv cfg (st_of ?r) => enough (HA : InvA cfg (st_of r)) by (destruct HA as [HA _]; exact HA) end.
+      apply (P_andthen (InvA cfg)).
+      * cbn [sn_send]. apply InvA_sn_send_owned. split.
+        -- destruct (negb (gw_keepalive s =? 0) && (gw_keepalive s <? dur)); inv_split; unfold Inv; cbn; rewrite Hacc in *;
+             (split; [|split; [|split]]); eauto with inv.
+        -- destruct (negb (gw_keepalive s =? 0) && (gw_keepalive s <? dur)); cbn; exact Hacc.
+      * intros s1 [H1 A1]. cbn [st_of ok fst]. split; [apply Inv_set_st; assumption|exact A1].
+Qed.
+
+#[local] Hint Extern 1 (ok_txn _ (TxBrokerPub _ _ _ (RsSn _) _ _)) =>
+  (split; [reflexivity|first [reflexivity|exact I]]) : inv.
+
+Lemma Inv_handle_broker_publish cfg s dup qos retain topic mid0 payload :
+  Inv cfg s -> Inv cfg (st_of (handle_broker_publish cfg s dup qos retain topic mid0 payload)).
+Proof.
+  intros H. unfold handle_broker_publish.
+  destruct (if is_short_topic topic then _ else _) as [[tid tit]|]; cbv beta iota zeta.
+  - destruct ((qos =? 0) && negb false); [inv_walk|].
+    destruct (if qos =? 0 then _ else _) as [mid|]; [|exact H].
+    destruct (2 <? qos); [exact H|].
+    unfold new_obj. cbv beta iota zeta.
+    apply Inv_bp_proceed; [inv_leaf|reflexivity|exact I].
+  - destruct ((qos =? 0) && negb true); [inv_walk|].
+    destruct (if qos =? 0 then _ else _) as [mid|]; [|exact H].
+    destruct (2 <? qos); [exact H|].
+    pose proof (new_topic_id_view cfg s) as Hv. destruct (new_topic_id cfg s) as [s1 [i|]]; cbn [fst] in Hv;
+      apply (Inv_view cfg) in Hv; try exact H; [|exact Hv].
+    unfold new_obj, note_handed. cbv beta iota zeta.
+    apply Inv_bp_proceed; [inv_leaf|reflexivity|reflexivity].
+Qed.
+
+Lemma Inv_note_handed cfg s i n : Inv cfg s -> Inv cfg (note_handed s i n).
+Proof. apply Inv_view. constructor; reflexivity. Qed.
+
+Lemma Inv_handle_mq cfg s m : Inv cfg s -> Inv cfg (st_of (handle_mq cfg s m)).
+Proof.
+  intros H. unfold handle_mq. destruct m; try exact H.
+  - (* Connack *)
+    destruct (get_connect s) as [[[g mq] a]|] eqn:Hg; [|exact H].
+    destruct (negb (cx_state_eqb a CxConnack)); [exact H|].
+    destruct (negb (rc =? 0)); [inv_walk|].
+    apply Inv_andthen; [|intros s1 H1; apply Inv_finish_obj, H1].
+    cbn [sn_send]. apply Inv_sn_send_owned. inv_split. unfold Inv. cbn. (split; [|split; [|split]]); eauto with inv.
+  - (* Publish *) apply Inv_handle_broker_publish, H.
+  - (* Puback *) inv_walk.
+  - (* Pubrec *) inv_walk.
+  - (* Pubrel *)
+    destruct (get_by_id s mid) as [[g t]|] eqn:Hg; [|exact H].
+    pose proof (Inv_ok_by_id _ _ _ _ _ H Hg) as Hok.
+    destruct t as [| | |m q st d sp n]; try exact H.
+    repeat (match goal with |- Inv _ (st_of (match ?x with _ => _ end)) => destruct x; try exact H end);
+      apply Inv_bp_proceed; [exact H|reflexivity|apply Hok].
+  - (* Pubcomp *) inv_walk.
+  - (* SubackX *) inv_walk; match goal with |- Inv _ (match ?x with _ => _ end) => destruct x end;
+      [apply Inv_note_handed|]; apply Inv_finish_obj, H.
+  - (* Unsuback *) inv_walk.
+  - (* Pingresp *) inv_walk.
+Qed.
+
+Lemma bp_type_set_dup p : bp_type (set_dup p) = bp_type p.
+Proof. destruct p; reflexivity. Qed.
+
+Lemma Inv_fire cfg s k : Inv cfg s -> gw_accepted s = true \/ is_ping k = false -> Inv cfg (st_of (fire cfg s k)).
+Proof.
+  intros H Hk. unfold fire. destruct k as [g|g|g|p|p].
+  - inv_walk.
+  - inv_walk.
+  - destruct (gw_objs s !! g) as [t|] eqn:Hg; [|exact H].
+    assert (Hok : ok_txn (gw_accepted s) t) by (destruct H as [_ [_ [HO _]]]; eapply HO, Hg).
+    destruct t as [| | |mid qos st data snpub n]; try exact H.
+    destruct (retry_count cfg <? n + 1); [inv_walk|].
+    cbv zeta. destruct Hok as [Hd Hs].
+    match goal with |- context [arm ?s0 (TmRetry g) ?d] => set (s1 := arm s0 (TmRetry g) d) end.
+    assert (H1 : Inv cfg s1).
+    { subst s1. unfold arm, set_obj. inv_split. unfold Inv. cbn. (split; [|split; [|split]]); eauto 8 with inv.
+      apply IO_insert; [|exact HO]. split; [|exact Hs]. destruct data; cbn in *; [rewrite bp_type_set_dup|]; exact Hd. }
+    clearbody s1. destruct data as [p|k m].
+    + pose proof (Inv_sn_send_owned cfg s1 (Some g) (set_dup p) H1) as Hs1.
+      destruct (sn_send_owned s1 (Some g) (set_dup p)) as [[s2 o] [|c]]; cbn [st_of fst ok] in *; [exact Hs1|].
+      apply Inv_finish_obj, Hs1.
+    + exact H1.
+  - destruct Hk as [Hk|Hk]; [|discriminate Hk].
+    cbn [mq_send andthen ok st_of fst]. unfold arm. inv_split. unfold Inv. cbn. rewrite Hk in *.
+    (split; [|split; [|split]]); eauto with inv.
+  - cbn [st_of ok fst]. unfold disarm_ping. inv_leaf.
+Qed.
+
+Lemma Inv_begin_end cfg s c a b : Inv cfg s -> Inv cfg (fst (begin_end s c a b)).
+Proof. intros H. unfold begin_end. cbn [fst]. inv_leaf. Qed.
+
+Lemma Inv_finish_r cfg r a b : Inv cfg (st_of r) -> Inv cfg (fst (finish_r r a b)).
+Proof.
+  intros H. destruct r as [[s o] [|c]]; cbn [finish_r st_of fst] in *; [exact H|].
+  pose proof (Inv_begin_end cfg s c a b H) as Hb. destruct (begin_end s c a b) as [s' o']. exact Hb.
+Qed.
+
+Lemma min_timer_In l : forall t, min_timer l = Some t -> In t l.
+Proof.
+  induction l as [|u l IH]; intros t Ht; cbn [min_timer] in Ht; [discriminate|].
+  destruct (min_timer l) as [v|].
+  - destruct (earlier u v); injection Ht as <-; [left; reflexivity|right; apply IH; reflexivity].
+  - injection Ht as <-. left. reflexivity.
+Qed.
+
+Lemma IT_In acc tms tm : IT acc tms -> In tm tms -> acc = true \/ is_ping (tm_kind tm) = false.
+Proof.
+  intros [Ha|Hf] Hin; [left; exact Ha|right]. rewrite Forall_forall in Hf. exact (Hf tm Hin).
+Qed.
+
+Lemma Inv_pre_fire cfg s tm : Inv cfg s ->
+  Inv cfg (s <| gw_now := tm_at tm |> <| gw_timers := remove_timer (gw_timers s) tm |>).
+Proof. intros H. unfold remove_timer. inv_leaf. Qed.
+
+Lemma Inv_run_timers cfg t fuel : forall s, Inv cfg s -> Inv cfg (fst (run_timers fuel cfg s t)).
+Proof.
+  induction fuel as [|fuel IH]; intros s H; cbn [run_timers]; [exact H|].
+  destruct (gw_ending s) as [te|].
+  - destruct (te <=? t); [|exact H]. cbn [fst]. inv_leaf.
+  - destruct (min_timer (gw_timers s)) as [tm|] eqn:Hm; [|exact H].
+    destruct (tm_at tm <=? t); [|exact H].
+    assert (Hk : gw_accepted s = true \/ is_ping (tm_kind tm) = false).
+    { destruct H as [_ [HT _]]. eapply IT_In; [exact HT|]. apply min_timer_In, Hm. }
+    pose proof (Inv_pre_fire cfg s tm H) as H0.
+    pose proof (Inv_finish_r cfg _ false false (Inv_fire cfg _ (tm_kind tm) H0 Hk)) as H1.
+    match goal with |- context [finish_r ?r false false] => destruct (finish_r r false false) as [s' o] end.
+    cbn [fst] in H1. specialize (IH s' H1). destruct (run_timers fuel cfg s' t) as [s'' o']. exact IH.
+Qed.
+
+Lemma Inv_gw_step cfg s ev : Inv cfg s -> Inv cfg (fst (gw_step cfg s ev)).
+Proof.
+  intros H. unfold gw_step. destruct (gw_ended s); [exact H|].
+  destruct ev as [dg|m| | |d|].
+  - destruct (gw_ending s); [exact H|].
+    assert (H0 : Inv cfg (s <| gw_last_sn := gw_now s |>)) by inv_leaf.
+    destruct (read_dgram dg) as [p|e|ps]; apply Inv_finish_r; try exact H0. apply Inv_handle_sn, H0.
+  - destruct (gw_ending s); [exact H|].
+    assert (H0 : Inv cfg (s <| gw_last_mq := gw_now s |>)) by inv_leaf.
+    apply Inv_finish_r, Inv_handle_mq, H0.
+  - destruct (gw_ending s); [exact H|]. apply Inv_finish_r. cbn [st_of stop fst]. inv_leaf.
+  - destruct (gw_ending s); [exact H|]. apply Inv_finish_r. exact H.
+  - pose proof (Inv_run_timers cfg (gw_now s + d) (advance_fuel cfg s d) s H) as H1.
+    destruct (run_timers (advance_fuel cfg s d) cfg s (gw_now s + d)) as [s' o]. cbn [fst] in *.
+    destruct (gw_ended s'); [exact H1|]. inv_leaf.
+  - destruct (gw_ending s); [exact H|]. apply Inv_finish_r. exact H.
+Qed.
+
+Lemma reach_Inv cfg s : reach cfg s -> Inv cfg s.
+Proof. induction 1 as [|s ev Hr IH Hev]; [apply Inv_init|apply Inv_gw_step, IH]. Qed.
+
+(* ================================================================== what a step writes *)
+
+(* P of every MQTT packet and Q of every MQTT-SN packet among the outputs *)
+Definition all_out (P : mq_pkt -> Prop) (Q : packet -> Prop) (os : list gw_out) : Prop :=
+  all_mq P os /\ all_sn Q os.
+
+Lemma all_out_nil P Q : all_out P Q [].
+Proof. split; [apply all_mq_nil|apply all_sn_nil]. Qed.
+
+Lemma all_out_app P Q a b : all_out P Q a -> all_out P Q b -> all_out P Q (a ++ b).
+Proof. intros [Ha1 Ha2] [Hb1 Hb2]. split; [apply all_mq_app|apply all_sn_app]; assumption. Qed.
+
+Lemma all_out_impl (P P' : mq_pkt -> Prop) (Q Q' : packet -> Prop) os :
+  (forall m, P m -> P' m) -> (forall p, Q p -> Q' p) -> all_out P Q os -> all_out P' Q' os.
+Proof. intros HP HQ [H1 H2]. split; [eapply all_mq_impl|eapply all_sn_impl]; eassumption. Qed.
+
+Lemma sn_send_owned_out P (Q : packet -> Prop) s o p : Q p -> all_out P Q (outs_of (sn_send_owned s o p)).
+Proof. intros HQ. split; [apply sn_send_owned_mq|apply sn_send_owned_sn, HQ]. Qed.
+
+Lemma sn_send_out P (Q : packet -> Prop) s p : Q p -> all_out P Q (outs_of (sn_send s p)).
+Proof. apply sn_send_owned_out. Qed.
+
+Lemma mq_send_out (P : mq_pkt -> Prop) Q s m : P m -> all_out P Q (outs_of (mq_send s m)).
+Proof. intros HP. split; [apply mq_send_mq, HP|apply mq_send_sn]. Qed.
+
+Lemma andthen_out P Q r g :
+  all_out P Q (outs_of r) -> (forall s, all_out P Q (outs_of (g s))) -> all_out P Q (outs_of (andthen r g)).
+Proof.
+  intros [H1 H2] Hg. split; [apply andthen_mq|apply andthen_sn]; try assumption; intros s; apply Hg.
+Qed.
+
+Lemma begin_end_out P (Q : packet -> Prop) s c a b : Q (Disconnect 0) -> all_out P Q (snd (begin_end s c a b)).
+Proof. intros HQ. split; [apply begin_end_mq|apply begin_end_sn, HQ]. Qed.
+
+Lemma finish_r_out P (Q : packet -> Prop) r a b :
+  Q (Disconnect 0) -> all_out P Q (outs_of r) -> all_out P Q (snd (finish_r r a b)).
+Proof. intros HQ [H1 H2]. split; [apply finish_r_mq, H1|apply finish_r_sn; assumption]. Qed.
+
+(* walk the match / if structure of a handler, leaving the packets it sends as goals *)
+Ltac out_walk :=
+  repeat first
+    [ apply all_out_nil
+    | apply andthen_out; [|intros ?]
+    | apply sn_send_out
+    | apply sn_send_owned_out
+    | apply mq_send_out
+    | match goal with |- all_out _ _ (outs_of (match ?x with _ => _ end)) => destruct x eqn:? end
+    | match goal with |- all_out _ _ (outs_of (if ?x then _ else _)) => destruct x eqn:? end
+    | progress cbn [outs_of ok stop fst snd] ].
+
+(* the flush of the sleep buffer writes the packets in front of the first one that does not fit *)
+Fixpoint flushed (buf : list (option N * packet)) : list packet :=
+  match buf with
+  | [] => []
+  | (_, p) :: rest => if len (pack p) <=? MaxPacketLen then p :: flushed rest else []
+  end.
+
+Lemma send_all_out P (Q : packet -> Prop) ps : forall s,
+  gw_st s <> Asleep -> (forall p, In p (flushed ps) -> Q p) -> all_out P Q (outs_of (send_all s ps)).
+Proof.
+  induction ps as [|[o p] ps IH]; intros s Hst HQ; cbn [send_all]; [apply all_out_nil|].
+  cbn [flushed] in HQ. unfold sn_send, sn_send_owned.
+  destruct (gw_st s) eqn:Est; try (exfalso; apply Hst; reflexivity);
+    (destruct (len (pack p) <=? MaxPacketLen) eqn:Hl; cbn [andthen ok stop];
+     [|cbn [outs_of fst snd]; apply all_out_nil]);
+    (assert (IHs : all_out P Q (outs_of (send_all s ps)))
+       by (apply IH; [rewrite Est; discriminate|intros p' Hp'; apply HQ; right; exact Hp']);
+     destruct (send_all s ps) as [[s' o'] res]; cbn [outs_of fst snd] in *;
+     apply (all_out_app P Q [_] o'); [|exact IHs];
+     split; [apply all_mq_sn|apply all_sn_one; [apply N.leb_le, Hl|apply HQ; left; reflexivity]]).
+Qed.
+
+(* --- the broker-publish transaction *)
+Lemma bp_proceed_out (P : mq_pkt -> Prop) (Q : packet -> Prop) cfg s g mid qos st data snpub :
+  match data with RsSn p => Q p | RsAck k m => P (mq_ack k m) end ->
+  all_out P Q (outs_of (bp_proceed cfg s g mid qos st data snpub)).
+Proof. intros H. unfold bp_proceed. cbv zeta. destruct data; destruct st; out_walk; exact H. Qed.
+
+Lemma bp_regack_out P (Q : packet -> Prop) cfg s g t rc acc :
+  (forall p, bp_type p = true -> Q p) -> ok_txn acc t -> all_out P Q (outs_of (bp_regack cfg s g t rc)).
+Proof.
+  intros HQ Ht. unfold bp_regack.
+  destruct t as [| | |mid qos st d sp n]; try apply all_out_nil.
+  destruct st; try apply all_out_nil. destruct d as [p|]; try apply all_out_nil.
+  destruct p; try apply all_out_nil. destruct sp as [pub|]; try apply all_out_nil.
+  destruct Ht as [_ Hs]. cbn in Hs.
+  destruct (negb (rc =? RC_ACCEPTED)); [apply all_out_nil|].
+  cbv zeta. apply bp_proceed_out. apply HQ, Hs.
+Qed.
+
+Definition nothing_mq (m : mq_pkt) : Prop := False.
+
+Lemma handle_broker_publish_out (Q : packet -> Prop) cfg s dup qos retain topic mid0 payload :
+  (forall p, bp_type p = true -> Q p) ->
+  all_out nothing_mq Q (outs_of (handle_broker_publish cfg s dup qos retain topic mid0 payload)).
+Proof.
+  intros HQ. unfold handle_broker_publish.
+  destruct (if is_short_topic topic then _ else _) as [[tid tit]|]; cbv beta iota zeta;
+    out_walk; try (apply HQ; reflexivity); unfold new_obj; cbv beta iota zeta;
+    apply bp_proceed_out; apply HQ; reflexivity.
+Qed.
+
+(* what the gateway sends to the client on behalf of the broker *)
+Definition resp_type (p : packet) : bool :=
+  match p with
+  | Register _ _ _ | Publish _ _ _ _ _ _ _ | Pubrel _ | Puback _ _ _ | Pubrec _ | Pubcomp _
+  | Suback _ _ _ _ | Unsuback _ | Pingresp => true
+  | _ => false
+  end.
+
+Lemma bp_resp p : bp_type p = true -> resp_type p = true.
+Proof. destruct p; cbn; intros H; try discriminate H; reflexivity. Qed.
+
+Lemma handle_mq_out (Q : packet -> Prop) cfg s m :
+  (forall p, resp_type p = true -> Q p) ->
+  (forall sp rc, m = MqConnack sp rc -> Q (Connack (if rc =? 0 then RC_ACCEPTED else RC_CONGESTION))) ->
+  all_out nothing_mq Q (outs_of (handle_mq cfg s m)).
+Proof.
+  intros HQ HC. unfold handle_mq. destruct m; try apply all_out_nil.
+  - specialize (HC _ _ eq_refl). destruct (rc =? 0) eqn:Hrc; cbn [negb]; out_walk; exact HC.
+  - apply handle_broker_publish_out. intros p Hp. apply HQ, bp_resp, Hp.
+  - out_walk; apply HQ; reflexivity.
+  - out_walk; apply HQ; reflexivity.
+  - out_walk; try apply bp_proceed_out; apply HQ; reflexivity.
+  - out_walk; apply HQ; reflexivity.
+  - out_walk; apply HQ; reflexivity.
+  - out_walk; apply HQ; reflexivity.
+  - out_walk; apply HQ; reflexivity.
+Qed.
+
+(* --- timers *)
+Definition tm_mq (acc : bool) (m : mq_pkt) : Prop := acc = true /\ is_mq_connect m = false.
+Definition tm_sn (p : packet) : Prop := bp_type p = true \/ p = Disconnect 0.
+
+Lemma fire_out cfg s k : Inv cfg s -> gw_accepted s = true \/ is_ping k = false ->
+  all_out (tm_mq (gw_accepted s)) tm_sn (outs_of (fire cfg s k)).
+Proof.
+  intros H Hk. unfold fire. destruct k as [g|g|g|p|p].
+  - out_walk.
+  - out_walk.
+  - destruct (gw_objs s !! g) as [t|] eqn:Hg; [|apply all_out_nil].
+    assert (Hok : ok_txn (gw_accepted s) t) by (destruct H as [_ [_ [HO _]]]; eapply HO, Hg).
+    destruct t as [| | |mid qos st data snpub n]; try apply all_out_nil.
+    destruct (retry_count cfg <? n + 1); [apply all_out_nil|].
+    cbv zeta. destruct Hok as [Hd Hs].
+    match goal with |- context [arm ?s0 (TmRetry g) ?d] => generalize (arm s0 (TmRetry g) d) end. intros s1.
+    destruct data as [p|k m].
+    + pose proof (sn_send_owned_out (tm_mq (gw_accepted s)) tm_sn s1 (Some g) (set_dup p)) as Hs1.
+      destruct (sn_send_owned s1 (Some g) (set_dup p)) as [[s2 o] [|c]]; cbn [outs_of fst snd ok] in *;
+        apply Hs1; left; rewrite bp_type_set_dup; exact Hd.
+    + apply mq_send_out. split; [exact Hd|destruct k; reflexivity].
+  - destruct Hk as [Hk|Hk]; [|discriminate Hk]. out_walk. split; [exact Hk|reflexivity].
+  - out_walk.
+Qed.
+
+(* the ghost flag "the broker accepted" only changes when the broker's CONNACK is handled *)
+Lemma acc_sn_send_owned s o p : gw_accepted (st_of (sn_send_owned s o p)) = gw_accepted s.
+Proof. unfold sn_send_owned. destruct (gw_st s); try destruct (len (pack p) <=? MaxPacketLen); reflexivity. Qed.
+
+Lemma acc_finish_obj s g : gw_accepted (finish_obj s g) = gw_accepted s.
+Proof. unfold finish_obj. destruct (gw_objs s !! g) as [[]|]; reflexivity. Qed.
+
+Lemma acc_fire cfg s k : gw_accepted (st_of (fire cfg s k)) = gw_accepted s.
+Proof.
+  unfold fire. destruct k as [g|g|g|p|p]; try reflexivity.
+  - destruct (gw_objs s !! g); [|reflexivity]. cbn [st_of stop fst]. apply acc_finish_obj.
+  - destruct (gw_objs s !! g); [|reflexivity]. cbn [st_of ok fst]. apply acc_finish_obj.
+  - destruct (gw_objs s !! g) as [[| | |mid qos st data snpub n]|]; try reflexivity.
+    destruct (retry_count cfg <? n + 1); [cbn [st_of ok fst]; apply acc_finish_obj|].
+    cbv zeta. destruct data as [p|k m]; [|reflexivity].
+    match goal with |- context [sn_send_owned ?s1 ?o ?q] =>
+      pose proof (acc_sn_send_owned s1 o q) as Hs1; destruct (sn_send_owned s1 o q) as [[s2 o2] [|c]] end;
+      cbn [st_of ok fst] in *; [exact Hs1|]. rewrite acc_finish_obj. exact Hs1.
+Qed.
+
+Lemma acc_finish_r r a b : gw_accepted (fst (finish_r r a b)) = gw_accepted (st_of r).
+Proof. destruct r as [[s o] [|c]]; reflexivity. Qed.
+
+Lemma run_timers_out cfg t fuel : forall s, Inv cfg s ->
+  all_out (tm_mq (gw_accepted s)) tm_sn (snd (run_timers fuel cfg s t)).
+Proof.
+  induction fuel as [|fuel IH]; intros s H; cbn [run_timers]; [apply all_out_nil|].
+  destruct (gw_ending s) as [te|].
+  - destruct (te <=? t); cbn [snd]; [|apply all_out_nil].
+    split; [intros t' m [E|[]]; discriminate E|intros t' dg [E|[]]; discriminate E].
+  - destruct (min_timer (gw_timers s)) as [tm|] eqn:Hm; [|apply all_out_nil].
+    destruct (tm_at tm <=? t); [|apply all_out_nil].
+    assert (Hk : gw_accepted s = true \/ is_ping (tm_kind tm) = false).
+    { destruct H as [_ [HT _]]. eapply IT_In; [exact HT|]. apply min_timer_In, Hm. }
+    pose proof (Inv_pre_fire cfg s tm H) as H0.
+    pose proof (Inv_finish_r cfg _ false false (Inv_fire cfg _ (tm_kind tm) H0 Hk)) as H1.
+    pose proof (finish_r_out _ _ _ false false (or_intror eq_refl) (fire_out cfg _ (tm_kind tm) H0 Hk)) as Ho.
+    pose proof (acc_finish_r (fire cfg (s <| gw_now := tm_at tm |> <| gw_timers := remove_timer (gw_timers s) tm |>) (tm_kind tm)) false false) as Ha.
+    rewrite acc_fire in Ha. cbn [gw_accepted set] in Ha, Ho.
+    match goal with |- context [finish_r ?r false false] => destruct (finish_r r false false) as [s' o] end.
+    cbn [fst snd] in *. specialize (IH s' H1). rewrite Ha in IH.
+    destruct (run_timers fuel cfg s' t) as [s'' o']. cbn [snd] in *. apply all_out_app; assumption.
+Qed.
+
+(* ================================================================== from the handlers to the step *)
+
+Lemma gw_step_out (P : mq_pkt -> Prop) (Q : packet -> Prop) cfg s ev :
+  Q (Disconnect 0) ->
+  (forall dg p, ev = EvSn dg -> read_dgram dg = Ok p ->
+     all_out P Q (outs_of (handle_sn cfg (s <| gw_last_sn := gw_now s |>) p))) ->
+  (forall m, ev = EvMq m -> all_out P Q (outs_of (handle_mq cfg (s <| gw_last_mq := gw_now s |>) m))) ->
+  (forall d, ev = EvAdvance d -> all_out P Q (snd (run_timers (advance_fuel cfg s d) cfg s (gw_now s + d)))) ->
+  all_out P Q (snd (gw_step cfg s ev)).
+Proof.
+  intros HQ Hsn Hmq Hadv. unfold gw_step. destruct (gw_ended s); [apply all_out_nil|].
+  destruct ev as [dg|m| | |d|].
+  - destruct (gw_ending s); [apply all_out_nil|].
+    destruct (read_dgram dg) as [p|e|ps] eqn:Hr; apply finish_r_out; try exact HQ; try apply all_out_nil.
+    apply (Hsn dg p eq_refl Hr).
+  - destruct (gw_ending s); [apply all_out_nil|]. apply finish_r_out; [exact HQ|]. apply (Hmq m eq_refl).
+  - destruct (gw_ending s); [apply all_out_nil|]. apply finish_r_out; [exact HQ|apply all_out_nil].
+  - destruct (gw_ending s); [apply all_out_nil|]. apply finish_r_out; [exact HQ|apply all_out_nil].
+  - specialize (Hadv d eq_refl).
+    destruct (run_timers (advance_fuel cfg s d) cfg s (gw_now s + d)) as [s' o]. exact Hadv.
+  - destruct (gw_ending s); [apply all_out_nil|]. apply finish_r_out; [exact HQ|apply all_out_nil].
+Qed.
+
+Lemma none_of_false {A} (l : list A) (f : A -> bool) : none_of l f = false -> exists x, In x l /\ f x = true.
+Proof.
+  unfold none_of. intros H. destruct (List.filter f l) as [|x r] eqn:E; [discriminate H|].
+  exists x. apply filter_In. rewrite E. left. reflexivity.
+Qed.
+
+Lemma bind_nil_In {A B} (f : A -> list B) (l : list A) : (forall x, In x l -> f x = []) -> l ≫= f = [].
+Proof.
+  induction l as [|x l IH]; intros H; [reflexivity|].
+  change ((x :: l) ≫= f) with (f x ++ (l ≫= f)). rewrite (H x (or_introl eq_refl)), IH; [reflexivity|].
+  intros y Hy. apply H. right. exact Hy.
+Qed.
+
+Lemma mqs_obs os : mqs (obs_of_outs os) = out_mqs os.  Proof. reflexivity. Qed.
+Lemma sn_pkts_obs os : sn_pkts (obs_of_outs os) = out_sns os.  Proof. reflexivity. Qed.
+
+Lemma out_mqs_all (P : mq_pkt -> Prop) os m : all_mq P os -> In m (out_mqs os) -> exists m0, m = wire m0 /\ P m0.
+Proof. intros Hall Hin. apply in_out_mqs in Hin. destruct Hin as [t [m0 [Hin ->]]]. exists m0. split; [reflexivity|]. eapply Hall, Hin. Qed.
+
+(* ================================================================== C07 *)
+
+Definition PM7 (cfg : gw_cfg) (op : option packet) (m : mq_pkt) : Prop :=
+  match m with
+  | MqConnect _ => True
+  | MqDisconnect => op = Some (Disconnect 0)
+  | MqPublish _ _ _ _ _ _ =>
+    exists d r tit tid mid data,
+      op = Some (Publish d 3 r tit tid mid data) /\ auth_enabled cfg = false /\ (tit = 1 \/ tit = 2)
+  | _ => False
+  end.
+
+Definition QS7 (ev : gw_event) (p : packet) : Prop :=
+  match p with
+  | Connack rc => rc < 256 /\ (rc = RC_ACCEPTED -> exists sp, ev = EvMq (MqConnack sp 0))
+  | _ => True
+  end.
+
+Lemma bp_QS7 ev p : bp_type p = true -> QS7 ev p.
+Proof. destruct p; cbn; intros H; try discriminate H; exact I. Qed.
+
+Ltac c07_leaf :=
+  first [ exact I
+        | (split; [reflexivity|intros E; discriminate E]) ].
+
+Lemma handle_sn_C07 cfg s ev p : gw_st s = Disconnected ->
+  all_out (PM7 cfg (Some p)) (QS7 ev) (outs_of (handle_sn cfg s p)).
+Proof.
+  intros Hst. unfold handle_sn, packet_legal. rewrite Hst.
+  destruct p; cbn [negb]; try apply all_out_nil.
+  - (* Auth *) unfold connect_auth, connect_auth_done. out_walk; c07_leaf.
+  - (* Connect *)
+    unfold handle_connect, connect_start, connect_auth_done, new_obj. rewrite Hst. cbn [cstate_eqb orb].
+    out_walk; c07_leaf.
+  - (* WillTopic *) out_walk; c07_leaf.
+  - (* WillMsg *) out_walk; c07_leaf.
+  - (* Publish *)
+    destruct (negb (auth_enabled cfg) && (qos =? 3) && ((tit =? TIT_SHORT) || (tit =? TIT_PREDEFINED))) eqn:Hl;
+      cbn [negb]; [|apply all_out_nil].
+    apply andb_true_iff in Hl as [Hl Ht]. apply andb_true_iff in Hl as [Ha Hq].
+    apply negb_true_iff in Ha. apply N.eqb_eq in Hq. subst qos.
+    unfold handle_client_publish, new_obj. out_walk.
+    exists dup, retain, tit, tid, mid, data. split; [reflexivity|]. split; [exact Ha|].
+    apply orb_true_iff in Ht as [Ht|Ht]; apply N.eqb_eq in Ht; [right|left]; exact Ht.
+  - (* Disconnect *)
+    destruct (dur =? 0) eqn:Hd; cbn [negb]; [|apply all_out_nil].
+    apply N.eqb_eq in Hd. subst dur. out_walk; try c07_leaf. reflexivity.
+Qed.
+
+Lemma handle_mq_C07 cfg s m :
+  all_out (PM7 cfg None) (QS7 (EvMq m)) (outs_of (handle_mq cfg s m)).
+Proof.
+  eapply all_out_impl; [| |apply (handle_mq_out (QS7 (EvMq m)))].
+  - intros m0 [].
+  - intros p Hp. exact Hp.
+  - intros p Hp. destruct p; try discriminate Hp; exact I.
+  - intros sp rc ->. destruct (rc =? 0) eqn:Hrc.
+    + apply N.eqb_eq in Hrc. subst rc. split; [reflexivity|]. intros _. exists sp. reflexivity.
+    + split; [reflexivity|intros E; discriminate E].
+Qed.
+
+Lemma chk_C07_inv cfg s ev : Inv cfg s -> chk_C07 cfg s ev (obs_of_outs (snd (gw_step cfg s ev))) = [].
+Proof.
+  intros H. unfold chk_C07.
+  destruct (negb (running s) || gw_accepted s) eqn:E; [reflexivity|].
+  apply orb_false_iff in E. destruct E as [_ Eacc].
+  assert (Hst : gw_st s = Disconnected).
+  { destruct H as [[Ha|Hd] _]; [congruence|exact Hd]. }
+  assert (Hout : all_out (PM7 cfg (ev_packet ev)) (QS7 ev) (snd (gw_step cfg s ev))).
+  { apply gw_step_out.
+    - exact I.
+    - intros dg p -> Hr. cbn [ev_packet]. rewrite Hr. apply handle_sn_C07. exact Hst.
+    - intros m ->. apply handle_mq_C07.
+    - intros d ->. eapply all_out_impl; [| |apply run_timers_out, H].
+      + intros m [Ha _]. congruence.
+      + intros p [Hp| ->]; [apply bp_QS7, Hp|exact I]. }
+  destruct Hout as [Hm Hs]. rewrite mqs_obs, sn_pkts_obs.
+  apply app_nil. split.
+  - destruct (none_of (out_sns (snd (gw_step cfg s ev))) is_connack_accepted) eqn:En; [reflexivity|].
+    apply none_of_false in En. destruct En as [x [Hin Hx]].
+    destruct x; try discriminate Hx. cbn in Hx. apply N.eqb_eq in Hx. subst rc.
+    apply (sns_connack (QS7 ev)) in Hin; [|intros rc [Hrc _]; exact Hrc|exact Hs].
+    destruct Hin as [_ Hin]. destruct (Hin eq_refl) as [sp ->]. reflexivity.
+  - apply bind_nil_In. intros m Hin.
+    destruct (out_mqs_all _ _ _ Hm Hin) as [m0 [-> HP]].
+    destruct m0; cbn [wire PM7] in *; try contradiction; try reflexivity.
+    + destruct HP as [d [r [tit [tid [mid' [data [-> [Ha Ht]]]]]]]]. rewrite Ha. cbn [negb andb].
+      destruct Ht as [->| ->]; reflexivity.
+    + rewrite HP. reflexivity.
+Qed.
+
+Theorem chk_C07_sound : forall cfg s ev, wf_cfg cfg -> reach cfg s -> wf_event ev ->
+  chk_C07 cfg s ev (obs_of_outs (snd (gw_step cfg s ev))) = [].
+Proof. intros cfg s ev _ Hr _. apply chk_C07_inv, reach_Inv, Hr. Qed.
+
+(* ================================================================== packets outside the connect exchange *)
+
+(* client packets of the connect exchange / gateway packets of the connect exchange *)
+Definition cx_pkt (p : packet) : bool :=
+  match p with Connect _ _ _ _ _ | Auth _ _ _ | WillTopic _ _ _ | WillMsg _ => true | _ => false end.
+Definition cx_type (p : packet) : bool :=
+  match p with Connack _ | WillTopicReq | WillMsgReq => true | _ => false end.
+
+Lemma bp_not_cx p : bp_type p = true -> cx_type p = false.
+Proof. destruct p; cbn; intros H; try discriminate H; reflexivity. Qed.
+
+Lemma mq_ack_not_connect k m : is_mq_connect (mq_ack k m) = false.
+Proof. destruct k; reflexivity. Qed.
+
+Lemma handle_sn_other_out (P : mq_pkt -> Prop) (Q : packet -> Prop) cfg s p :
+  Inv cfg s -> cx_pkt p = false ->
+  (forall m, is_mq_connect m = false -> P m) ->
+  (forall q, cx_type q = false -> Q q) ->
+  (forall cid q, p = Pingreq cid -> gw_st s = Asleep -> In q (flushed (gw_buffer s)) -> Q q) ->
+  all_out P Q (outs_of (handle_sn cfg s p)).
+Proof.
+  intros H Hp HP HQ Hfl. unfold handle_sn.
+  destruct (negb (packet_legal cfg s p)); [apply all_out_nil|].
+  assert (Hbp : forall g t, gw_objs s !! g = Some t -> ok_txn (gw_accepted s) t).
+  { destruct H as [_ [_ [HO _]]]. exact HO. }
+  destruct p; try discriminate Hp; try apply all_out_nil.
+  - (* Register *) destruct (register_topic cfg s name) as [s1 [i|]]; out_walk; apply HQ; reflexivity.
+  - (* Regack *)
+    destruct (get_by_id s mid) as [[g t]|] eqn:Hg; [|apply all_out_nil].
+    apply get_by_id_Some in Hg. apply Hbp in Hg.
+    destruct t; try apply all_out_nil. eapply bp_regack_out; [|exact Hg]. intros q Hq. apply HQ, bp_not_cx, Hq.
+  - (* Publish *) unfold handle_client_publish, new_obj. out_walk; apply HP; reflexivity.
+  - (* Puback *) out_walk; try apply bp_proceed_out; apply HP, mq_ack_not_connect.
+  - (* Pubcomp *) out_walk; try apply bp_proceed_out; apply HP, mq_ack_not_connect.
+  - (* Pubrec *) out_walk; try apply bp_proceed_out; apply HP, mq_ack_not_connect.
+  - (* Pubrel *) out_walk. apply HP. reflexivity.
+  - (* Subscribe *) unfold handle_subscribe, new_obj. out_walk; first [apply HP; reflexivity|apply HQ; reflexivity].
+  - (* Unsubscribe *) unfold handle_unsubscribe. out_walk; apply HP; reflexivity.
+  - (* Pingreq *)
+    destruct (cstate_eqb (gw_st s) Asleep) eqn:Hst.
+    + assert (Hs : gw_st s = Asleep) by (destruct (gw_st s); try discriminate Hst; reflexivity).
+      cbv zeta. apply andthen_out.
+      * apply send_all_out; [cbn; discriminate|]. intros q Hq. eapply Hfl; [reflexivity|exact Hs|exact Hq].
+      * intros s1. out_walk. apply HQ. reflexivity.
+    + out_walk. apply HP. reflexivity.
+  - (* Disconnect *) out_walk; first [apply HP; reflexivity|apply HQ; reflexivity].
+Qed.
+
+(* ================================================================== the step, unfolded *)
+
+Lemma running_true s : running s = true -> gw_ended s = false /\ gw_ending s = None.
+Proof.
+  unfold running. intros H. apply andb_true_iff in H as [H1 H2]. apply negb_true_iff in H1.
+  split; [exact H1|]. destruct (gw_ending s); [discriminate H2|reflexivity].
+Qed.
+
+Lemma ev_packet_Some ev p : ev_packet ev = Some p -> exists dg, ev = EvSn dg /\ read_dgram dg = Ok p.
+Proof.
+  destruct ev as [dg| | | | |]; try discriminate. cbn [ev_packet].
+  destruct (read_dgram dg) as [q| |] eqn:Hr; try discriminate. intros E. injection E as <-. eauto.
+Qed.
+
+Lemma gw_step_sn cfg s dg p : gw_ended s = false -> gw_ending s = None -> read_dgram dg = Ok p ->
+  gw_step cfg s (EvSn dg) = finish_r (handle_sn cfg (s <| gw_last_sn := gw_now s |>) p) true false.
+Proof. intros H1 H2 H3. unfold gw_step. rewrite H1, H2, H3. reflexivity. Qed.
+
+Lemma gw_step_mq cfg s m : gw_ended s = false -> gw_ending s = None ->
+  gw_step cfg s (EvMq m) = finish_r (handle_mq cfg (s <| gw_last_mq := gw_now s |>) m) false true.
+Proof. intros H1 H2. unfold gw_step. rewrite H1, H2. reflexivity. Qed.
+
+Lemma Inv_last_sn cfg s x : Inv cfg s -> Inv cfg (s <| gw_last_sn := x |>).
+Proof. apply Inv_view. constructor; reflexivity. Qed.
+Lemma Inv_last_mq cfg s x : Inv cfg s -> Inv cfg (s <| gw_last_mq := x |>).
+Proof. apply Inv_view. constructor; reflexivity. Qed.
+
+(* ================================================================== C08 *)
+
+Definition creds (c : mq_connect) (u p : bytes) : Prop :=
+  c_uflag c = true /\ c_user c = u /\ c_pflag c = true /\ c_pass c = p.
+
+Definition is_auth (op : option packet) : bool := match op with Some (Auth _ _ _) => true | _ => false end.
+
+Definition PM8 (cfg : gw_cfg) (s : gw_state) (op : option packet) (m : mq_pkt) : Prop :=
+  match m with
+  | MqConnect c =>
+    if auth_enabled cfg then
+      (exists r data u p, op = Some (Auth r AUTH_PLAIN data) /\ decode_plain data = Some (u, p) /\ creds c u p) \/
+      (is_auth op = false /\ exists u p, gw_auth_seen s = Some (u, p) /\ creds c u p)
+    else c_uflag c = cfg_uflag cfg /\ c_user c = cfg_uval cfg /\ c_pflag c = cfg_pflag cfg /\ c_pass c = cfg_pval cfg
+  | _ => True
+  end.
+
+Definition any_sn (p : packet) : Prop := True.
+
+Lemma cx_state_eqb_eq a b : cx_state_eqb a b = true -> a = b.
+Proof. destruct a, b; cbn; intros H; try discriminate H; reflexivity. Qed.
+
+Lemma handle_sn_C08 cfg s p : Inv cfg s -> all_out (PM8 cfg s (Some p)) any_sn (outs_of (handle_sn cfg s p)).
+Proof.
+  intros H. destruct (cx_pkt p) eqn:Hp.
+  2:{ apply handle_sn_other_out; try assumption.
+      - intros m Hm. destruct m; try discriminate Hm; exact I.
+      - intros; exact I.
+      - intros; exact I. }
+  unfold handle_sn. destruct (negb (packet_legal cfg s p)); [apply all_out_nil|].
+  destruct p; try discriminate Hp.
+  - (* Auth *)
+    destruct (get_connect s) as [[[g mq] a]|] eqn:Hg; [|apply all_out_nil].
+    unfold connect_auth. destruct (negb (cx_state_eqb a CxAuth)) eqn:Ha; [apply all_out_nil|].
+    apply negb_false_iff, cx_state_eqb_eq in Ha. subst a.
+    pose proof (Inv_cx _ _ _ _ _ H Hg) as [Hau _]. specialize (Hau eq_refl).
+    destruct (beq method AUTH_PLAIN) eqn:Hb; [|out_walk; exact I].
+    apply beq_true in Hb. subst method.
+    destruct (decode_plain data) as [[u pw]|] eqn:Hd; [|apply all_out_nil].
+    unfold connect_auth_done. out_walk; try exact I.
+    unfold PM8. rewrite Hau. left. exists reason, data, u, pw. repeat split; try reflexivity. exact Hd.
+  - (* Connect *)
+    unfold handle_connect, connect_start, connect_auth_done, new_obj.
+    destruct (auth_enabled cfg) eqn:Hau; out_walk; try exact I.
+    unfold PM8. rewrite Hau. repeat split; reflexivity.
+  - (* WillTopic *) out_walk; exact I.
+  - (* WillMsg *)
+    destruct (get_connect s) as [[[g mq] a]|] eqn:Hg; [|apply all_out_nil].
+    destruct (negb (cx_state_eqb a CxWillMsg)) eqn:Ha; [apply all_out_nil|].
+    apply negb_false_iff, cx_state_eqb_eq in Ha. subst a.
+    pose proof (Inv_cx _ _ _ _ _ H Hg) as [_ [Hno [Hyes _]]].
+    cbv zeta. apply mq_send_out. unfold PM8. destruct (auth_enabled cfg).
+    + right. split; [reflexivity|]. destruct (Hyes eq_refl) as [u [pw [Hseen Hc]]]; [discriminate|].
+      exists u, pw. split; [exact Hseen|]. exact Hc.
+    + exact (Hno eq_refl).
+Qed.
+
+Lemma connack3_fits : (len (pack (Connack RC_NOT_SUPPORTED)) <=? MaxPacketLen) = true.
+Proof. vm_compute. reflexivity. Qed.
+
+Lemma auth_legal cfg s r me da : packet_legal cfg s (Auth r me da) = true.
+Proof. unfold packet_legal. destruct (gw_st s); reflexivity. Qed.
+
+Lemma auth_bad_outs cfg s r me da g mq :
+  get_connect s = Some (g, mq, CxAuth) -> beq me AUTH_PLAIN = false -> gw_st s <> Asleep ->
+  outs_of (handle_sn cfg s (Auth r me da)) = [OutSn (gw_now s) (pack (Connack RC_NOT_SUPPORTED))].
+Proof.
+  intros Hg Hb Hst. unfold handle_sn. rewrite auth_legal. cbn [negb]. rewrite Hg. unfold connect_auth.
+  cbn [cx_state_eqb negb]. rewrite Hb. unfold sn_send, sn_send_owned.
+  destruct (gw_st s); try (exfalso; apply Hst; reflexivity); rewrite connack3_fits; reflexivity.
+Qed.
+
+Definition c08_excluded (cfg : gw_cfg) (s : gw_state) (ev : gw_event) : bool :=
+  running s && cstate_eqb (gw_st s) Asleep &&
+  match ev_packet ev, get_connect s with
+  | Some (Auth _ method _), Some (_, _, CxAuth) => negb (beq method AUTH_PLAIN)
+  | _, _ => false
+  end.
+
+Lemma creds_eq_wire c u p : creds c u p ->
+  match wire (MqConnect c) with MqConnect c' => creds_eq c' true u true p = true | _ => False end.
+Proof.
+  intros (H1 & H2 & H3 & H4). cbn [wire]. unfold creds_eq. cbn [c_uflag c_pflag c_user c_pass].
+  rewrite H1, H2, H3, H4, !beq_refl. reflexivity.
+Qed.
+
+Lemma chk_C08_inv cfg s ev : Inv cfg s -> c08_excluded cfg s ev = false ->
+  chk_C08 cfg s ev (obs_of_outs (snd (gw_step cfg s ev))) = [].
+Proof.
+  intros H Hex. unfold chk_C08.
+  destruct (running s) eqn:Hrun; cbn [negb]; [|reflexivity].
+  destruct (running_true s Hrun) as [Hended Hending].
+  assert (Hout : all_out (PM8 cfg s (ev_packet ev)) any_sn (snd (gw_step cfg s ev))).
+  { apply gw_step_out.
+    - exact I.
+    - intros dg p -> Hr. cbn [ev_packet]. rewrite Hr.
+      eapply all_out_impl; [| |apply handle_sn_C08, Inv_last_sn, H].
+      + intros m Hm. exact Hm.
+      + intros q Hq. exact Hq.
+    - intros m ->. eapply all_out_impl; [| |apply (handle_mq_out any_sn)]; try (intros; exact I). intros m0 [].
+    - intros d ->. eapply all_out_impl; [| |apply run_timers_out, H]; try (intros; exact I).
+      intros m [_ Hm]. destruct m; try discriminate Hm; exact I. }
+  destruct Hout as [Hm _]. rewrite mqs_obs, sn_pkts_obs.
+  apply app_nil. split.
+  - apply bind_nil_In. intros m Hin.
+    destruct (out_mqs_all _ _ _ Hm Hin) as [m0 [-> HP]].
+    destruct m0; try reflexivity. unfold PM8 in HP. destruct (auth_enabled cfg).
+    + destruct HP as [[r [data [u [p [Hop [Hd Hc]]]]]]|[Hna [u [p [Hseen Hc]]]]].
+      * rewrite Hop, Hd. apply creds_eq_wire in Hc. cbn [wire] in *. rewrite Hc, beq_refl. reflexivity.
+      * apply creds_eq_wire in Hc. cbn [wire] in *.
+        destruct (ev_packet ev) as [[]|]; try discriminate Hna; rewrite Hseen, Hc; reflexivity.
+    + destruct HP as (H1 & H2 & H3 & H4). cbn [wire]. unfold cfg_creds_ok, creds_eq.
+      cbn [c_uflag c_pflag c_user c_pass]. rewrite H1, H2, H3, H4. unfold cfg_uflag, cfg_uval, cfg_pflag, cfg_pval.
+      destruct (cfg_user cfg), (cfg_pass cfg); cbn [Bool.eqb andb]; rewrite ?beq_refl; reflexivity.
+  - destruct (ev_packet ev) as [[]|] eqn:Hop; try reflexivity.
+    destruct (get_connect s) as [[[g mq] []]|] eqn:Hg; try reflexivity.
+    destruct (beq method AUTH_PLAIN) eqn:Hb; [reflexivity|].
+    assert (Hst : gw_st s <> Asleep).
+    { unfold c08_excluded in Hex. rewrite Hrun, Hop, Hg, Hb in Hex. intros E. rewrite E in Hex. discriminate Hex. }
+    apply ev_packet_Some in Hop. destruct Hop as [dg [-> Hr]].
+    rewrite (gw_step_sn cfg s dg _ Hended Hending Hr).
+    rewrite out_mqs_finish_r.
+    destruct (out_sns_finish_r (handle_sn cfg (s <| gw_last_sn := gw_now s |>) (Auth reason method data)) true false)
+      as [tl [-> _]].
+    match goal with |- context [handle_sn cfg ?s0 _] =>
+      rewrite (auth_bad_outs cfg s0 reason method data g mq Hg Hb Hst) end.
+    rewrite out_sns_sn, (read_pack_roundtrip (Connack RC_NOT_SUPPORTED) eq_refl). reflexivity.
+Qed.
+
+Theorem chk_C08_sound_partial : forall cfg s ev, wf_cfg cfg -> reach cfg s -> wf_event ev ->
+  c08_excluded cfg s ev = false ->
+  chk_C08 cfg s ev (obs_of_outs (snd (gw_step cfg s ev))) = [].
+Proof. intros cfg s ev _ Hr _ Hex. apply chk_C08_inv; [apply reach_Inv, Hr|exact Hex]. Qed.
+
+(* ================================================================== C09 *)
+
+Definition QW (cfg : gw_cfg) (s : gw_state) (op : option packet) (p : packet) : Prop :=
+  match p with
+  | WillTopicReq =>
+    (exists cl pr d cid, op = Some (Connect true cl pr d cid) /\ auth_enabled cfg = false) \/
+    (exists r me da g mq, op = Some (Auth r me da) /\ get_connect s = Some (g, mq, CxAuth) /\ c_will mq = true)
+  | WillMsgReq => exists q r t g mq, op = Some (WillTopic q r t) /\ get_connect s = Some (g, mq, CxWillTopic)
+  | _ => True
+  end.
+
+Definition PM9 (cfg : gw_cfg) (s : gw_state) (op : option packet) (m : mq_pkt) : Prop :=
+  match m with
+  | MqConnect c =>
+    (exists cl pr d cid, op = Some (Connect false cl pr d cid) /\ auth_enabled cfg = false /\ c_will c = false) \/
+    (exists r me da g mq, op = Some (Auth r me da) /\ get_connect s = Some (g, mq, CxAuth) /\
+                          c_will mq = false /\ c_will c = false) \/
+    (exists msg g mq, op = Some (WillMsg msg) /\ get_connect s = Some (g, mq, CxWillMsg) /\
+                      c_will c = true /\ c_wtopic c = c_wtopic mq /\ c_wqos c = c_wqos mq /\
+                      c_wretain c = c_wretain mq /\ c_wmsg c = msg)
+  | _ => True
+  end.
+
+Definition no_will_req (p : packet) : Prop := is_willtopicreq p = false /\ is_willmsgreq p = false.
+
+Lemma no_will_req_QW cfg s op p : no_will_req p -> QW cfg s op p.
+Proof. intros [H1 H2]. destruct p; try exact I; discriminate. Qed.
+
+Lemma handle_sn_C09 cfg s p : Inv cfg s ->
+  (forall cid q, p = Pingreq cid -> gw_st s = Asleep -> In q (flushed (gw_buffer s)) -> no_will_req q) ->
+  all_out (PM9 cfg s (Some p)) (QW cfg s (Some p)) (outs_of (handle_sn cfg s p)).
+Proof.
+  intros H Hfl. destruct (cx_pkt p) eqn:Hp.
+  2:{ apply handle_sn_other_out; try assumption.
+      - intros m Hm. destruct m; try discriminate Hm; exact I.
+      - intros q Hq. destruct q; try discriminate Hq; exact I.
+      - intros cid q E Hst Hq. apply no_will_req_QW. eapply Hfl; eassumption. }
+  unfold handle_sn. destruct (negb (packet_legal cfg s p)); [apply all_out_nil|].
+  destruct p; try discriminate Hp.
+  - (* Auth *)
+    destruct (get_connect s) as [[[g mq] a]|] eqn:Hg; [|apply all_out_nil].
+    unfold connect_auth. destruct (negb (cx_state_eqb a CxAuth)) eqn:Ha; [apply all_out_nil|].
+    apply negb_false_iff, cx_state_eqb_eq in Ha. subst a.
+    destruct (beq method AUTH_PLAIN); [|out_walk; exact I].
+    destruct (decode_plain data) as [[u pw]|]; [|apply all_out_nil].
+    unfold connect_auth_done.
+    match goal with |- context [if c_will ?m then _ else _] => destruct (c_will m) eqn:Hw end; cbn in Hw.
+    + apply sn_send_out. right. exists reason, method, data, g, mq. repeat split; assumption.
+    + apply mq_send_out. right. left. exists reason, method, data, g, mq. repeat split; assumption.
+  - (* Connect *)
+    unfold handle_connect.
+    destruct (negb (proto =? 1)); [out_walk; exact I|].
+    destruct (cstate_eqb (gw_st s) Awake || cstate_eqb (gw_st s) Asleep); [out_walk; exact I|].
+    destruct (dur =? 0); [out_walk; exact I|].
+    cbv zeta. unfold new_obj. cbv beta iota. unfold connect_start.
+    destruct (auth_enabled cfg) eqn:Hau; [apply all_out_nil|].
+    unfold connect_auth_done. cbn [c_will].
+    destruct will.
+    + apply sn_send_out. left. exists clean, proto, dur, cid. split; [reflexivity|exact Hau].
+    + apply mq_send_out. left. exists clean, proto, dur, cid. repeat split; [exact Hau].
+  - (* WillTopic *)
+    destruct (get_connect s) as [[[g mq] a]|] eqn:Hg; [|apply all_out_nil].
+    destruct (negb (cx_state_eqb a CxWillTopic)) eqn:Ha; [apply all_out_nil|].
+    apply negb_false_iff, cx_state_eqb_eq in Ha. subst a.
+    destruct ((len topic =? 0) || (2 <? qos)); [apply all_out_nil|].
+    cbv zeta. apply sn_send_out. exists qos, retain, topic, g, mq. split; [reflexivity|exact Hg].
+  - (* WillMsg *)
+    destruct (get_connect s) as [[[g mq] a]|] eqn:Hg; [|apply all_out_nil].
+    destruct (negb (cx_state_eqb a CxWillMsg)) eqn:Ha; [apply all_out_nil|].
+    apply negb_false_iff, cx_state_eqb_eq in Ha. subst a.
+    pose proof (Inv_cx _ _ _ _ _ H Hg) as [_ [_ [_ Hw]]].
+    cbv zeta. apply mq_send_out. right. right. exists msg, g, mq.
+    split; [reflexivity|]. split; [exact Hg|]. split; [apply Hw; right; reflexivity|]. repeat split; reflexivity.
+Qed.
+
+(* --- a client packet of the connect exchange is answered by at most one packet *)
+Lemma len_sn_send_owned s o p : (length (outs_of (sn_send_owned s o p)) <= 1)%nat.
+Proof. unfold sn_send_owned. destruct (gw_st s); try destruct (len (pack p) <=? MaxPacketLen); cbn; lia. Qed.
+
+Lemma len_andthen_stop r (f : gw_state -> gw_state) c :
+  length (outs_of (andthen r (fun s => stop (f s) [] c))) = length (outs_of r).
+Proof. destruct r as [[s o] [|c']]; cbn; [rewrite app_nil_r|]; reflexivity. Qed.
+
+Lemma len_andthen_ok r (f : gw_state -> gw_state) :
+  length (outs_of (andthen r (fun s => ok (f s) []))) = length (outs_of r).
+Proof. destruct r as [[s o] [|c']]; cbn; [rewrite app_nil_r|]; reflexivity. Qed.
+
+Lemma len_connect_auth_done s g mq : (length (outs_of (connect_auth_done s g mq)) <= 1)%nat.
+Proof. unfold connect_auth_done. destruct (c_will mq); [apply len_sn_send_owned|cbn; lia]. Qed.
+
+Lemma cx_len cfg s p : cx_pkt p = true -> (length (outs_of (handle_sn cfg s p)) <= 1)%nat.
+Proof.
+  intros Hp. unfold handle_sn. destruct (negb (packet_legal cfg s p)); [cbn; lia|].
+  destruct p; try discriminate Hp.
+  - destruct (get_connect s) as [[[g mq] a]|]; [|cbn; lia].
+    unfold connect_auth. destruct (negb (cx_state_eqb a CxAuth)); [cbn; lia|].
+    destruct (beq method AUTH_PLAIN).
+    + destruct (decode_plain data) as [[u pw]|]; [apply len_connect_auth_done|cbn; lia].
+    + rewrite len_andthen_stop. apply len_sn_send_owned.
+  - unfold handle_connect.
+    destruct (negb (proto =? 1)); [apply len_sn_send_owned|].
+    destruct (cstate_eqb (gw_st s) Awake || cstate_eqb (gw_st s) Asleep); [apply len_sn_send_owned|].
+    destruct (dur =? 0); [apply len_sn_send_owned|].
+    cbv zeta. unfold new_obj. cbv beta iota. unfold connect_start.
+    destruct (auth_enabled cfg); [cbn; lia|apply len_connect_auth_done].
+  - destruct (get_connect s) as [[[g mq] a]|]; [|cbn; lia].
+    destruct (negb (cx_state_eqb a CxWillTopic)); [cbn; lia|].
+    destruct ((len topic =? 0) || (2 <? qos)); [cbn; lia|]. apply len_sn_send_owned.
+  - destruct (get_connect s) as [[[g mq] a]|]; [|cbn; lia].
+    destruct (negb (cx_state_eqb a CxWillMsg)); cbn; lia.
+Qed.
+
+Lemma connack_len cfg s sp rc : (length (outs_of (handle_mq cfg s (MqConnack sp rc))) <= 1)%nat.
+Proof.
+  unfold handle_mq. destruct (get_connect s) as [[[g mq] a]|]; [|cbn; lia].
+  destruct (negb (cx_state_eqb a CxConnack)); [cbn; lia|].
+  destruct (negb (rc =? 0)); [rewrite len_andthen_stop|rewrite len_andthen_ok]; apply len_sn_send_owned.
+Qed.
+
+(* --- the CONNACK code table *)
+Definition QC4 (rc : N) (p : packet) : Prop :=
+  match p with
+  | Connack code => code < 256 /\ (if rc =? 0 then code = RC_ACCEPTED else code = RC_CONGESTION)
+  | _ => True
+  end.
+
+Lemma handle_mq_QC4 cfg s sp rc : all_sn (QC4 rc) (outs_of (handle_mq cfg s (MqConnack sp rc))).
+Proof.
+  apply (handle_mq_out (QC4 rc)).
+  - intros p Hp. destruct p; try discriminate Hp; exact I.
+  - intros sp' rc' E. injection E as E1 E2. subst rc'. destruct (rc =? 0) eqn:Hrc; unfold QC4; rewrite Hrc; split; reflexivity.
+Qed.
+
+Definition QC5 (s : gw_state) (p : packet) : Prop :=
+  match p with
+  | Connack code =>
+    code < 256 /\ (if cstate_eqb (gw_st s) Awake || cstate_eqb (gw_st s) Asleep
+                   then code = RC_ACCEPTED else code = RC_NOT_SUPPORTED)
+  | _ => True
+  end.
+
+Lemma handle_sn_QC5 cfg s w c cid : all_sn (QC5 s) (outs_of (handle_sn cfg s (Connect w c 1 0 cid))).
+Proof.
+  unfold handle_sn. destruct (negb (packet_legal cfg s (Connect w c 1 0 cid))); [apply all_sn_nil|].
+  unfold handle_connect. cbn [N.eqb Pos.eqb negb].
+  destruct (cstate_eqb (gw_st s) Awake || cstate_eqb (gw_st s) Asleep) eqn:Hst;
+    apply sn_send_sn; (split; [reflexivity|rewrite Hst; reflexivity]).
+Qed.
+
+Definition c09_excluded (cfg : gw_cfg) (s : gw_state) (ev : gw_event) : bool :=
+  running s && cstate_eqb (gw_st s) Asleep &&
+  match ev_packet ev with
+  | Some (Pingreq _) => existsb (fun p => is_willtopicreq p || is_willmsgreq p) (flushed (gw_buffer s))
+  | _ => false
+  end.
+
+Lemma filter_head {A} (f : A -> bool) (l : list A) x r : List.filter f l = x :: r -> In x l /\ f x = true.
+Proof. intros E. apply filter_In. rewrite E. left. reflexivity. Qed.
+
+Lemma length_filter_le {A} (f : A -> bool) (l : list A) : (length (List.filter f l) <= length l)%nat.
+Proof. induction l as [|x l IH]; cbn; [lia|]. destruct (f x); cbn; lia. Qed.
+
+Lemma PM9_cx cfg s op c : PM9 cfg s op (MqConnect c) -> exists p, op = Some p /\ cx_pkt p = true.
+Proof.
+  intros [(cl & pr & d & cid & -> & _)|[(r & me & da & g & mq & -> & _)|(msg & g & mq & -> & _)]]; eauto.
+Qed.
+
+Lemma cstate_eqb_eq a b : cstate_eqb a b = true -> a = b.
+Proof. destruct a, b; cbn; intros H; try discriminate H; reflexivity. Qed.
+
+Lemma chk_C09_inv cfg s ev : Inv cfg s -> c09_excluded cfg s ev = false ->
+  chk_C09 cfg s ev (obs_of_outs (snd (gw_step cfg s ev))) = [].
+Proof.
+  intros H Hex. unfold chk_C09.
+  destruct (running s) eqn:Hrun; cbn [negb]; [|reflexivity].
+  destruct (running_true s Hrun) as [Hended Hending]. cbv zeta.
+  assert (Hout : all_out (PM9 cfg s (ev_packet ev)) (QW cfg s (ev_packet ev)) (snd (gw_step cfg s ev))).
+  { apply gw_step_out.
+    - exact I.
+    - intros dg p -> Hr. cbn [ev_packet]. rewrite Hr.
+      eapply all_out_impl; [| |apply handle_sn_C09; [apply Inv_last_sn, H|]].
+      + intros m Hm. exact Hm.
+      + intros q Hq. exact Hq.
+      + intros cid q -> Hst Hq. unfold c09_excluded in Hex. cbn [ev_packet] in Hex. rewrite Hrun, Hr in Hex.
+        change (gw_st (s <| gw_last_sn := gw_now s |>)) with (gw_st s) in Hst.
+        change (gw_buffer (s <| gw_last_sn := gw_now s |>)) with (gw_buffer s) in Hq.
+        rewrite Hst in Hex. cbn [cstate_eqb andb] in Hex.
+        destruct (is_willtopicreq q || is_willmsgreq q) eqn:E.
+        * exfalso. assert (Ht : existsb (fun p => is_willtopicreq p || is_willmsgreq p) (flushed (gw_buffer s)) = true)
+            by (apply existsb_exists; eauto). rewrite Ht in Hex. discriminate Hex.
+        * apply orb_false_iff in E. exact E.
+    - intros m ->. eapply all_out_impl; [| |apply (handle_mq_out no_will_req)].
+      + intros m0 [].
+      + intros q Hq. apply no_will_req_QW, Hq.
+      + intros p Hp. destruct p; try discriminate Hp; split; reflexivity.
+      + intros sp rc _. split; reflexivity.
+    - intros d ->. eapply all_out_impl; [| |apply run_timers_out, H].
+      + intros m [_ Hm]. destruct m; try discriminate Hm; exact I.
+      + intros p [Hp| ->]; [|exact I]. destruct p; try discriminate Hp; exact I. }
+  destruct Hout as [Hm Hs]. rewrite mqs_obs, sn_pkts_obs.
+  apply app_nil. split; [|apply app_nil; split; [|apply app_nil; split]].
+  - (* WILLTOPICREQ *)
+    destruct (none_of (out_sns (snd (gw_step cfg s ev))) is_willtopicreq) eqn:En; [reflexivity|].
+    apply none_of_false in En. destruct En as [x [Hin Hx]]. destruct x; try discriminate Hx.
+    apply (sns_willtopicreq _ _ Hs) in Hin.
+    destruct Hin as [(cl & pr & d & cid & Hop & Hau)|(r & me & da & g & mq & Hop & Hg & Hw)].
+    + rewrite Hop, Hau. reflexivity.
+    + rewrite Hop, Hg, Hw. reflexivity.
+  - (* WILLMSGREQ *)
+    destruct (none_of (out_sns (snd (gw_step cfg s ev))) is_willmsgreq) eqn:En; [reflexivity|].
+    apply none_of_false in En. destruct En as [x [Hin Hx]]. destruct x; try discriminate Hx.
+    apply (sns_willmsgreq _ _ Hs) in Hin. destruct Hin as (q & r & t & g & mq & Hop & Hg).
+    rewrite Hop, Hg. reflexivity.
+  - (* MQTT CONNECT *)
+    destruct (List.filter is_mq_connect (out_mqs (snd (gw_step cfg s ev)))) as [|x [|y l]] eqn:F; [reflexivity| |].
+    + apply filter_head in F. destruct F as [Hin Hx].
+      destruct (out_mqs_all _ _ _ Hm Hin) as [m0 [-> HP]]. destruct m0; try discriminate Hx. cbn [wire].
+      destruct HP as [(cl & pr & d & cid & Hop & Hau & Hc)|[(r & me & da & g & mq & Hop & Hg & Hw & Hc)|
+                      (msg & g & mq & Hop & Hg & Hc & Ht & Hq & Hr & Hmsg)]].
+      * rewrite Hop, Hau. cbn [orb c_will]. rewrite Hc. reflexivity.
+      * rewrite Hop, Hg, Hw. cbn [c_will]. rewrite Hc. reflexivity.
+      * rewrite Hop, Hg. cbn [c_will c_wtopic c_wqos c_wretain c_wmsg]. rewrite Hc, Ht, Hq, Hr, Hmsg.
+        rewrite !beq_refl, N.eqb_refl, Bool.eqb_reflx. reflexivity.
+    + exfalso. pose proof (filter_head _ _ _ _ F) as [Hin Hx].
+      destruct (out_mqs_all _ _ _ Hm Hin) as [m0 [-> HP]]. destruct m0; try discriminate Hx.
+      apply PM9_cx in HP. destruct HP as [p [Hop Hp]].
+      apply ev_packet_Some in Hop. destruct Hop as [dg [-> Hr]].
+      pose proof (length_filter_le is_mq_connect (out_mqs (snd (gw_step cfg s (EvSn dg))))) as Hlen.
+      rewrite F in Hlen. rewrite (gw_step_sn cfg s dg p Hended Hending Hr), out_mqs_finish_r in Hlen.
+      match type of Hlen with (_ <= length (out_mqs (outs_of (handle_sn cfg ?s0 _))))%nat =>
+        pose proof (length_out_mqs (outs_of (handle_sn cfg s0 p))) as H1;
+        pose proof (cx_len cfg s0 p Hp) as H2 end. cbn [length] in Hlen. lia.
+  - (* CONNACK codes *)
+    destruct ev as [dg|m| | |d|]; try reflexivity.
+    + destruct (List.filter is_sn_connack (out_sns (snd (gw_step cfg s (EvSn dg))))) as [|x [|y l]] eqn:F;
+        try reflexivity; [|destruct x; reflexivity].
+      apply filter_head in F. destruct F as [Hin Hx]. destruct x; try discriminate Hx.
+      destruct (ev_packet (EvSn dg)) as [[]|] eqn:Hop; try reflexivity.
+      destruct dur; [|reflexivity].
+      cbn [ev_packet] in Hop. destruct (read_dgram dg) as [p| |] eqn:Hr; try discriminate Hop.
+      injection Hop as ->. pose proof (read_dgram_connect_proto _ _ _ _ _ _ Hr) as ->.
+      rewrite (gw_step_sn cfg s dg _ Hended Hending Hr) in Hin.
+      apply (sns_connack (QC5 s)) in Hin.
+      * destruct Hin as [_ Hin]. destruct (cstate_eqb (gw_st s) Awake || cstate_eqb (gw_st s) Asleep); subst rc; reflexivity.
+      * intros rc' [Hrc _]. exact Hrc.
+      * apply finish_r_sn; [exact I|].
+        eapply all_sn_impl; [|apply handle_sn_QC5]. intros q Hq. exact Hq.
+    + destruct m; try reflexivity.
+      destruct (List.filter is_sn_connack (out_sns (snd (gw_step cfg s (EvMq (MqConnack sp rc)))))) as [|x [|y l]] eqn:F;
+        [reflexivity| |].
+      * apply filter_head in F. destruct F as [Hin Hx]. destruct x; try discriminate Hx.
+        rewrite (gw_step_mq cfg s _ Hended Hending) in Hin.
+        apply (sns_connack (QC4 rc)) in Hin.
+        -- destruct Hin as [_ Hin]. destruct (rc =? 0); subst rc0; reflexivity.
+        -- intros rc' [Hrc _]. exact Hrc.
+        -- apply finish_r_sn; [exact I|apply handle_mq_QC4].
+      * exfalso. rewrite (gw_step_mq cfg s _ Hended Hending) in F.
+        destruct (out_sns_finish_r (handle_mq cfg (s <| gw_last_mq := gw_now s |>) (MqConnack sp rc)) false true)
+          as [tl [E Htl]].
+        rewrite E, filter_app in F.
+        assert (Ht : List.filter is_sn_connack tl = []) by (destruct Htl as [-> | ->]; reflexivity).
+        rewrite Ht, app_nil_r in F.
+        match type of F with List.filter _ (out_sns (outs_of (handle_mq cfg ?s0 _))) = _ =>
+          pose proof (length_filter_le is_sn_connack (out_sns (outs_of (handle_mq cfg s0 (MqConnack sp rc))))) as H1;
+          pose proof (length_out_sns (outs_of (handle_mq cfg s0 (MqConnack sp rc)))) as H2;
+          pose proof (connack_len cfg s0 sp rc) as H3 end.
+        rewrite F in H1. cbn [length] in H1. lia.
+Qed.
+
+Theorem chk_C09_sound_partial : forall cfg s ev, wf_cfg cfg -> reach cfg s -> wf_event ev ->
+  c09_excluded cfg s ev = false ->
+  chk_C09 cfg s ev (obs_of_outs (snd (gw_step cfg s ev))) = [].
+Proof. intros cfg s ev _ Hr _ Hex. apply chk_C09_inv; [apply reach_Inv, Hr|exact Hex]. Qed.
+
+(* ================================================================== the side conditions are exact *)
+
+Lemma in_out_sns_intro os t dg q : In (OutSn t dg) os -> read_dgram dg = Ok q -> In q (out_sns os).
+Proof.
+  intros Hin Hr. apply in_split in Hin. destruct Hin as [l1 [l2 ->]].
+  change (OutSn t dg :: l2) with ([OutSn t dg] ++ l2). rewrite !out_sns_app, out_sns_sn, Hr.
+  apply in_or_app. right. left. reflexivity.
+Qed.
+
+Lemma send_all_flushed ps q : forall s, gw_st s <> Asleep -> In q (flushed ps) ->
+  In (OutSn (gw_now s) (pack q)) (outs_of (send_all s ps)).
+Proof.
+  induction ps as [|[o p] ps IH]; intros s Hst Hq; cbn [flushed] in Hq; [contradiction|].
+  cbn [send_all]. unfold sn_send, sn_send_owned.
+  destruct (len (pack p) <=? MaxPacketLen) eqn:Hl; [|contradiction].
+  destruct (gw_st s) eqn:Est; try (exfalso; apply Hst; reflexivity); cbn [andthen ok];
+    (assert (IHs : In q (flushed ps) -> In (OutSn (gw_now s) (pack q)) (outs_of (send_all s ps)))
+       by (apply IH; rewrite Est; discriminate);
+     destruct (send_all s ps) as [[s' o'] res]; cbn [outs_of fst snd] in *;
+     destruct Hq as [->|Hq]; [left; reflexivity|right; apply IHs, Hq]).
+Qed.
+
+Lemma outs_andthen_l r g x : In x (outs_of r) -> In x (outs_of (andthen r g)).
+Proof.
+  intros H. destruct r as [[s o] [|c]]; cbn [andthen outs_of fst snd] in *; [|exact H].
+  destruct (g s) as [[s' o'] res]. cbn [fst snd]. apply in_or_app. left. exact H.
+Qed.
+
+Lemma outs_finish_r_l r a b x : In x (outs_of r) -> In x (snd (finish_r r a b)).
+Proof.
+  intros H. destruct r as [[s o] [|c]]; cbn [finish_r outs_of fst snd] in *; [exact H|].
+  destruct (begin_end s c a b) as [s' o']. cbn [snd]. apply in_or_app. left. exact H.
+Qed.
+
+(* C08: every excluded step is rejected (clause 3) *)
+Lemma c08_excluded_rejected cfg s ev : c08_excluded cfg s ev = true ->
+  In 3 (chk_C08 cfg s ev (obs_of_outs (snd (gw_step cfg s ev)))).
+Proof.
+  intros Hex. unfold c08_excluded in Hex.
+  apply andb_true_iff in Hex as [Hex Hb]. apply andb_true_iff in Hex as [Hrun Hst].
+  apply cstate_eqb_eq in Hst. destruct (running_true s Hrun) as [Hended Hending].
+  destruct (ev_packet ev) as [[]|] eqn:Hop; try discriminate Hb.
+  destruct (get_connect s) as [[[g mq] []]|] eqn:Hg; try discriminate Hb.
+  apply negb_true_iff in Hb.
+  unfold chk_C08. rewrite Hrun, Hop, Hg, Hb. cbn [negb]. apply in_or_app. right.
+  apply ev_packet_Some in Hop. destruct Hop as [dg [-> Hr]].
+  rewrite (gw_step_sn cfg s dg _ Hended Hending Hr). rewrite sn_pkts_obs.
+  assert (E : out_sns (snd (finish_r (handle_sn cfg (s <| gw_last_sn := gw_now s |>) (Auth reason method data)) true false)) = []).
+  { unfold handle_sn. rewrite auth_legal. cbn [negb].
+    change (get_connect (s <| gw_last_sn := gw_now s |>)) with (get_connect s). rewrite Hg.
+    unfold connect_auth. cbn [cx_state_eqb negb]. rewrite Hb. unfold sn_send, sn_send_owned.
+    change (gw_st (s <| gw_last_sn := gw_now s |>)) with (gw_st s). rewrite Hst.
+    cbn [andthen ok stop finish_r]. unfold begin_end.
+    match goal with |- context [gw_st (finish_obj ?s0 g)] =>
+      assert (Hf : gw_st (finish_obj s0 g) = Asleep)
+        by (unfold finish_obj; destruct (gw_objs s0 !! g) as [[]|]; cbn; exact Hst) end.
+    rewrite Hf. reflexivity. }
+  rewrite E. left. reflexivity.
+Qed.
+
+(* C09: every excluded step is rejected (clause 1 or clause 2) *)
+Lemma c09_excluded_rejected cfg s ev : c09_excluded cfg s ev = true ->
+  chk_C09 cfg s ev (obs_of_outs (snd (gw_step cfg s ev))) <> [].
+Proof.
+  intros Hex. unfold c09_excluded in Hex.
+  apply andb_true_iff in Hex as [Hex Hb]. apply andb_true_iff in Hex as [Hrun Hst].
+  apply cstate_eqb_eq in Hst. destruct (running_true s Hrun) as [Hended Hending].
+  destruct (ev_packet ev) as [[]|] eqn:Hop; try discriminate Hb.
+  apply existsb_exists in Hb. destruct Hb as [q [Hq Hw]].
+  assert (Hin : In q (out_sns (snd (gw_step cfg s ev))) /\ wf_pkt q = true).
+  { apply ev_packet_Some in Hop. destruct Hop as [dg [-> Hr]].
+    rewrite (gw_step_sn cfg s dg _ Hended Hending Hr).
+    assert (Hwf : wf_pkt q = true) by (destruct q; try discriminate Hw; reflexivity).
+    split; [|exact Hwf].
+    eapply in_out_sns_intro; [|apply read_pack_roundtrip, Hwf].
+    apply outs_finish_r_l. unfold handle_sn.
+    assert (Hl : packet_legal cfg (s <| gw_last_sn := gw_now s |>) (Pingreq cid) = true)
+      by (unfold packet_legal; change (gw_st (s <| gw_last_sn := gw_now s |>)) with (gw_st s); rewrite Hst; reflexivity).
+    rewrite Hl. cbn [negb].
+    change (gw_st (s <| gw_last_sn := gw_now s |>)) with (gw_st s). rewrite Hst. cbn [cstate_eqb]. cbv zeta.
+    apply outs_andthen_l.
+    apply (send_all_flushed _ q (s <| gw_last_sn := gw_now s |> <| gw_st := Awake |>)); [cbn; discriminate|exact Hq]. }
+  destruct Hin as [Hin _].
+  unfold chk_C09. rewrite Hrun, Hop. cbn [negb]. cbv zeta. rewrite sn_pkts_obs.
+  destruct q; try discriminate Hw.
+  - (* WillTopicReq *)
+    destruct (none_of (out_sns (snd (gw_step cfg s ev))) is_willtopicreq) eqn:En.
+    + exfalso. unfold none_of in En.
+      assert (Hf : In WillTopicReq (List.filter is_willtopicreq (out_sns (snd (gw_step cfg s ev)))))
+        by (apply filter_In; split; [exact Hin|reflexivity]).
+      destruct (List.filter is_willtopicreq (out_sns (snd (gw_step cfg s ev)))); [destruct Hf|discriminate En].
+    + intros E. apply app_eq_nil in E. destruct E as [E _]. discriminate E.
+  - (* WillMsgReq *)
+    destruct (none_of (out_sns (snd (gw_step cfg s ev))) is_willmsgreq) eqn:En.
+    + exfalso. unfold none_of in En.
+      assert (Hf : In WillMsgReq (List.filter is_willmsgreq (out_sns (snd (gw_step cfg s ev)))))
+        by (apply filter_In; split; [exact Hin|reflexivity]).
+      destruct (List.filter is_willmsgreq (out_sns (snd (gw_step cfg s ev)))); [destruct Hf|discriminate En].
+    + intros E. apply app_eq_nil in E. destruct E as [_ E]. apply app_eq_nil in E. destruct E as [E _]. discriminate E.
+Qed.
+
+(* ================================================================== counterexamples to the unconditional statements *)
+
+Definition cx9_cfg (auth : bool) : gw_cfg :=
+  {| auth_enabled := auth; cfg_user := None; cfg_pass := None; retry_delay := 1000; retry_count := 3;
+     predefined := []; min_tid := 1; max_tid := 65534 |}.
+
+Lemma cx9_cfg_wf auth : wf_cfg (cx9_cfg auth).
+Proof. unfold wf_cfg. cbn. repeat split; try reflexivity. constructor. Qed.
+
+Lemma cx9_sn_wf p : wf_bytesb (pack p) = true -> (len (pack p) <=? 100) = true -> wf_event (EvSn (pack p)).
+Proof.
+  intros H1 H2. split; [apply wf_bytesb_spec; exact H1|].
+  apply N.leb_le in H2. unfold len in H2. unfold MaxPacketLen. lia.
+Qed.
+
+Ltac cx9_wf :=
+  repeat (apply Forall_cons; [first [exact I | reflexivity | (apply cx9_sn_wf; vm_compute; reflexivity)]|]); apply Forall_nil.
+
+Definition cx9_cid : bytes := [99].                       (* "c" *)
+Definition cx9_plain : bytes := [0; 117; 0; 112].         (* "\0u\0p" *)
+Definition cx9_last (cfg : gw_cfg) (chk : gw_cfg -> gw_state -> gw_event -> list obs -> list N)
+                    (h : list gw_event) (ev : gw_event) : list N * list packet :=
+  let s := snd (gw_run cfg (init_state cfg) h) in
+  (chk cfg s ev (obs_of_outs (snd (gw_step cfg s ev))), sn_pkts (obs_of_outs (snd (gw_step cfg s ev)))).
+
+(* C08, clause 3 (authentication enabled).  The client connects and authenticates, the broker accepts;
+   the client sends a second CONNECT (a new exchange, awaiting AUTH), goes to sleep with DISCONNECT(10),
+   and then sends an AUTH with the unknown method "X": the CONNACK "not supported" is queued in the
+   sleep buffer, the exchange fails and the session ends; nothing is written in this step. *)
+Definition cx8_hist : list gw_event :=
+  [EvSn (pack (Connect false true 1 60 cx9_cid)); EvSn (pack (Auth 0 AUTH_PLAIN cx9_plain)); EvMq (MqConnack false 0);
+   EvSn (pack (Connect false true 1 60 cx9_cid)); EvSn (pack (Disconnect 10))].
+Definition cx8_ev : gw_event := EvSn (pack (Auth 0 [88] cx9_plain)).
+
+Example chk_C08_counterexample :
+  wf_cfg (cx9_cfg true) /\ Forall wf_event (cx8_hist ++ [cx8_ev]) /\
+  cx9_last (cx9_cfg true) chk_C08 cx8_hist cx8_ev = ([3], []) /\
+  c08_excluded (cx9_cfg true) (snd (gw_run (cx9_cfg true) (init_state (cx9_cfg true)) cx8_hist)) cx8_ev = true.
+Proof.
+  split; [apply cx9_cfg_wf|]. split; [unfold cx8_hist, cx8_ev; cbn [app]; cx9_wf|].
+  split; vm_compute; reflexivity.
+Qed.
+
+Lemma forall_app_wf (a b : list gw_event) : Forall wf_event (a ++ b) -> Forall wf_event a /\ Forall wf_event b.
+Proof. intros H. apply Forall_app in H. exact H. Qed.
+
+Theorem chk_C08_sound_false :
+  ~ (forall cfg s ev, wf_cfg cfg -> reach cfg s -> wf_event ev ->
+       chk_C08 cfg s ev (obs_of_outs (snd (gw_step cfg s ev))) = []).
+Proof.
+  intros Hall. destruct chk_C08_counterexample as (Hc & Hw & Hchk & _).
+  apply forall_app_wf in Hw. destruct Hw as [Hh Hev]. inversion Hev as [|? ? Hev1 _]; subst.
+  specialize (Hall (cx9_cfg true) _ cx8_ev Hc (reach_run _ _ Hh _ (reach_init _)) Hev1).
+  unfold cx9_last in Hchk. cbv zeta in Hchk. rewrite Hall in Hchk. discriminate Hchk.
+Qed.
+
+(* C09, clause 1 (authentication enabled).  As above, but the second CONNECT has the Will flag and the
+   AUTH sent while asleep is a good PLAIN AUTH: the WILLTOPICREQ is queued in the sleep buffer and is
+   written, followed by PINGRESP, in the step that handles the next PINGREQ. *)
+Definition cx9_hist1 : list gw_event :=
+  [EvSn (pack (Connect false true 1 60 cx9_cid)); EvSn (pack (Auth 0 AUTH_PLAIN cx9_plain)); EvMq (MqConnack false 0);
+   EvSn (pack (Connect true true 1 60 cx9_cid)); EvSn (pack (Disconnect 10)); EvSn (pack (Auth 0 AUTH_PLAIN cx9_plain))].
+Definition cx9_ev : gw_event := EvSn (pack (Pingreq cx9_cid)).
+
+Example chk_C09_counterexample_willtopicreq :
+  wf_cfg (cx9_cfg true) /\ Forall wf_event (cx9_hist1 ++ [cx9_ev]) /\
+  cx9_last (cx9_cfg true) chk_C09 cx9_hist1 cx9_ev = ([1], [WillTopicReq; Pingresp]) /\
+  c09_excluded (cx9_cfg true) (snd (gw_run (cx9_cfg true) (init_state (cx9_cfg true)) cx9_hist1)) cx9_ev = true.
+Proof.
+  split; [apply cx9_cfg_wf|]. split; [unfold cx9_hist1, cx9_ev; cbn [app]; cx9_wf|].
+  split; vm_compute; reflexivity.
+Qed.
+
+(* C09, clause 2 (no authentication).  The client connects, the broker accepts; the client sends a second
+   CONNECT with the Will flag (WILLTOPICREQ is written at once), goes to sleep with DISCONNECT(10) and
+   sends its WILLTOPIC while asleep: the WILLMSGREQ is queued and written on the next PINGREQ. *)
+Definition cx9_hist2 : list gw_event :=
+  [EvSn (pack (Connect false true 1 60 cx9_cid)); EvMq (MqConnack false 0);
+   EvSn (pack (Connect true true 1 60 cx9_cid)); EvSn (pack (Disconnect 10)); EvSn (pack (WillTopic 1 false [116]))].
+
+Example chk_C09_counterexample_willmsgreq :
+  wf_cfg (cx9_cfg false) /\ Forall wf_event (cx9_hist2 ++ [cx9_ev]) /\
+  cx9_last (cx9_cfg false) chk_C09 cx9_hist2 cx9_ev = ([2], [WillMsgReq; Pingresp]) /\
+  c09_excluded (cx9_cfg false) (snd (gw_run (cx9_cfg false) (init_state (cx9_cfg false)) cx9_hist2)) cx9_ev = true.
+Proof.
+  split; [apply cx9_cfg_wf|]. split; [unfold cx9_hist2, cx9_ev; cbn [app]; cx9_wf|].
+  split; vm_compute; reflexivity.
+Qed.
+
+Theorem chk_C09_sound_false :
+  ~ (forall cfg s ev, wf_cfg cfg -> reach cfg s -> wf_event ev ->
+       chk_C09 cfg s ev (obs_of_outs (snd (gw_step cfg s ev))) = []).
+Proof.
+  intros Hall. destruct chk_C09_counterexample_willmsgreq as (Hc & Hw & Hchk & _).
+  apply forall_app_wf in Hw. destruct Hw as [Hh Hev]. inversion Hev as [|? ? Hev1 _]; subst.
+  specialize (Hall (cx9_cfg false) _ cx9_ev Hc (reach_run _ _ Hh _ (reach_init _)) Hev1).
+  unfold cx9_last in Hchk. cbv zeta in Hchk. rewrite Hall in Hchk. discriminate Hchk.
+Qed.
+
+(* the same steps are fine for the other checkers, and an ordinary exchange passes all three *)
+Example chk_C07_C08_C09_exchange_ok :
+  cx9_last (cx9_cfg true) chk_C07 cx8_hist cx8_ev = ([], []) /\
+  cx9_last (cx9_cfg true) chk_C09 cx8_hist cx8_ev = ([], []) /\
+  cx9_last (cx9_cfg true) chk_C08 cx9_hist1 cx9_ev = ([], [WillTopicReq; Pingresp]) /\
+  cx9_last (cx9_cfg false) chk_C09 [EvSn (pack (Connect true true 1 60 cx9_cid))] (EvSn (pack (WillTopic 1 false [116])))
+    = ([], [WillMsgReq]) /\
+  cx9_last (cx9_cfg true) chk_C08 [EvSn (pack (Connect false true 1 60 cx9_cid))] cx8_ev = ([], [Connack 3]).
+Proof. vm_compute. repeat split; reflexivity. Qed.
+
+(* ================================================================== every history *)
+
+Theorem chk_C07_all_histories : forall cfg evs, wf_cfg cfg -> Forall wf_event evs ->
+  run_all cfg (fun s ev => chk_C07 cfg s ev (obs_of_outs (snd (gw_step cfg s ev))) = []) (init_state cfg) evs.
+Proof.
+  intros cfg evs Hc Hw.
+  apply (run_all_lift cfg (fun _ _ => True)); [|apply reach_init|exact Hw|apply run_all_true].
+  intros s ev Hr Hev _. apply chk_C07_sound; assumption.
+Qed.
+
+Theorem chk_C08_all_histories : forall cfg evs, wf_cfg cfg -> Forall wf_event evs ->
+  run_all cfg (fun s ev => c08_excluded cfg s ev = false) (init_state cfg) evs ->
+  run_all cfg (fun s ev => chk_C08 cfg s ev (obs_of_outs (snd (gw_step cfg s ev))) = []) (init_state cfg) evs.
+Proof.
+  intros cfg evs Hc Hw Hex.
+  apply (run_all_lift cfg (fun s ev => c08_excluded cfg s ev = false)); [|apply reach_init|exact Hw|exact Hex].
+  intros s ev Hr Hev Hx. apply chk_C08_sound_partial; assumption.
+Qed.
+
+Theorem chk_C09_all_histories : forall cfg evs, wf_cfg cfg -> Forall wf_event evs ->
+  run_all cfg (fun s ev => c09_excluded cfg s ev = false) (init_state cfg) evs ->
+  run_all cfg (fun s ev => chk_C09 cfg s ev (obs_of_outs (snd (gw_step cfg s ev))) = []) (init_state cfg) evs.
+Proof.
+  intros cfg evs Hc Hw Hex.
+  apply (run_all_lift cfg (fun s ev => c09_excluded cfg s ev = false)); [|apply reach_init|exact Hw|exact Hex].
+  intros s ev Hr Hev Hx. apply chk_C09_sound_partial; assumption.
+Qed.
+
+Print Assumptions chk_C07_sound.
+Print Assumptions chk_C08_sound_partial.
+Print Assumptions chk_C09_sound_partial.
+Print Assumptions chk_C07_all_histories.
+Print Assumptions chk_C08_all_histories.
+Print Assumptions chk_C09_all_histories.
+Print Assumptions chk_C08_sound_false.
+Print Assumptions chk_C09_sound_false.
+Print Assumptions c08_excluded_rejected.
+Print Assumptions c09_excluded_rejected.
